@@ -6,6 +6,8 @@ import ChythonModel.Proofs.C06Components
 import ChythonModel.Proofs.C06Canonic
 import ChythonModel.Proofs.C06Marks
 import ChythonModel.Proofs.C06Count
+import ChythonModel.Proofs.C06RingVec
+import ChythonModel.Proofs.C06SkinCycles
 /-!
 # C06 — ring perception returns a minimum cycle basis that ring marks agree with
 
@@ -44,6 +46,21 @@ theorem check_sssr_sound (g : Adj) (rings : List (List Nat)) (h : checkSssr g ri
   simp only [checkSssr, Bool.and_eq_true, List.all_eq_true, beq_iff_eq] at h
   obtain ⟨⟨h1, h2⟩, h3⟩ := h
   exact ⟨fun r hr => (isCycleOf_iff g r).1 (h1 r hr), indepCheck_sound h3, h2⟩
+
+/-- a simple cycle uses each of its bonds once -/
+theorem cycle_edges_distinct (r : List Nat) (h3 : 3 ≤ r.length) (hnd : r.Nodup) : (cycleEdges r).Nodup :=
+  cycleEdges_nodup r h3 hnd
+
+/-- **meaning of the vectors in `check_sssr_sound`**: for a simple cycle whose bonds all occur in the duplicate-free
+edge list `E`, bit `i` of `ringVec E r` is set iff the `i`-th bond of `E` is a bond of the cycle — `ringVec E r` is the
+GF(2) edge-incidence vector of the ring, and `Independent` is linear independence in the cycle space. -/
+theorem ring_vec_is_incidence_vector (E : List (Nat × Nat)) (hE : E.Nodup) (r : List Nat) (h3 : 3 ≤ r.length)
+    (hnd : r.Nodup) (hsub : ∀ e ∈ cycleEdges r, e ∈ E) (i : Nat) (hi : i < E.length) :
+    (ringVec E r).testBit i = true ↔ E[i] ∈ cycleEdges r :=
+  ringVec_testBit E hE r h3 hnd hsub i hi
+
+example : ringVec [(1, 2), (1, 4), (2, 3), (3, 4), (1, 3)] [1, 2, 3, 4] = 0b01111 ∧
+    cycleEdges [1, 2, 3, 4] = [(1, 2), (2, 3), (3, 4), (1, 4)] := by decide
 
 /-- the verdict the driver reports is `ok` exactly when the Boolean checker accepts -/
 theorem verdict_ok_iff (g : Adj) (rings : List (List Nat)) : checkSssrV g rings = .ok ↔ checkSssr g rings = true := by
@@ -156,6 +173,12 @@ theorem skin_is_two_core (g s : Adj) (hn : (keys g).Nodup) (h : skinGraph g = so
     (∀ S : List Nat, (∀ a ∈ S, 2 ≤ ((nbrsOf g a).filter (S.contains ·)).length) →
       ∀ a ∈ S, a ∈ keys s ∧ ∀ b ∈ S, b ∈ nbrsOf g a → b ∈ nbrsOf s a) :=
   ⟨skin_min_degree h, skin_sub h, skin_keys_nodup hn h, fun S hS => skin_keeps hn h S hS⟩
+
+/-- **pruning loses no ring**: on a well-formed symmetric graph the simple cycles of the input are exactly the simple
+cycles of `_skin_graph`'s result, so `_sssr` may search the pruned graph -/
+theorem skin_keeps_all_cycles (g s : Adj) (hwf : wfAdj g = true) (hsym : symAdj g = true)
+    (h : skinGraph g = some s) (r : List Nat) : IsSimpleCycle g r ↔ IsSimpleCycle s r :=
+  skin_preserves_cycles g s hwf hsym h r
 
 /-- non-vacuous: cyclobutane with a two-atom tail; the tail is pruned, the ring (S = [1,2,3,4]) survives -/
 example :
